@@ -40,6 +40,8 @@ var (
 	c04Structs = []string{"vStruct", "vStructPtr", "vStruct.Self", "vNilPtr", "vStruct.Ptr", "vSliceStruct[0]", "vPtrPtr"}
 	c04CmpOps  = []string{"==", "!=", "<", ">", "<=", ">="}
 	c04AllOps  = []string{"+", "-", "*", "/", "<", ">", "<=", ">=", "==", "!=", "&&", "||", "~="}
+
+	c04ImLeafList = c04ImLeaves()
 )
 
 func (g *c04Gen) pick(xs []string) string { return xs[g.r.Intn(len(xs))] }
@@ -48,6 +50,10 @@ func (g *c04Gen) anyLeaf(cmp bool) string {
 	for {
 		if len(g.vars) > 0 && g.r.Chance(25) {
 			return g.pick(g.vars)
+		}
+		if g.r.Chance(6) {
+			// a value that implements an interface the engine dispatches on (typed nil pointers, carriers; oracle_c04_iface.go)
+			return g.pick(c04ImLeafList)
 		}
 		e := c04Pool[g.r.Intn(len(c04Pool))]
 		if cmp && (e.Kind == "lit-array" || e.Kind == "lit-hash" || e.Kind == "lit-fn") {
@@ -396,7 +402,7 @@ func (g *c04Gen) stmt(d int) string {
 
 func c04Rand(cfg Config) *Report {
 	r := c04NewRunner("C04-rand", cfg)
-	r.rep.Rule = "random well-formed programs (2-7 top-level statements; text, output and silent tags, let/assign/index-write, if/else-if/else, for over collections/iterators/helper results with break/continue nested to 2, user fn definitions and calls, block helpers, contentFor/contentOf, partial, top-level return) whose leaves come from the C04 pool; holes are filled kind-directed with 10-35% wrong-kind fillers so that both the success and the error path of every frame are crossed in context; non-trivial = parses; distinct by template text"
+	r.rep.Rule = "random well-formed programs (2-7 top-level statements; text, output and silent tags, let/assign/index-write, if/else-if/else, for over collections/iterators/helper results with break/continue nested to 2, user fn definitions and calls, block helpers, contentFor/contentOf, partial, top-level return) whose leaves come from the C04 pool (6% of the free leaves: interface-implementing values im*, mostly typed nil pointers and their carriers); holes are filled kind-directed with 10-35% wrong-kind fillers so that both the success and the error path of every frame are crossed in context; non-trivial = parses; distinct by template text"
 	n := cfg.N(25000, 600000)
 	var mu sync.Mutex
 	c04Chunked(r.rep, cfg, 8, n, func(lo, hi int, rep *Report) {
